@@ -653,11 +653,12 @@ fn build_fault(fault: &str, x: u32, sub: u32) -> Option<(Vec<u8>, Option<u8>, Ve
             if x16 == 0 {
                 return None;
             }
-            let rec = avp_record(0x01, x16, 9, &[0x12, 0x34]);
-            match sub {
+            // sub = route + 2 * flag pattern (M, none, H+M, H, reserved bits)
+            let flagbits = *[0x01u8, 0x00, 0x03, 0x02, 0x3d].get((sub / 2) as usize)?;
+            let rec = avp_record(flagbits, x16, 9, &[0x12, 0x34]);
+            match sub % 2 {
                 0 => Some((control_message(&[good_message_type(), rec].concat()), Some(spec::OPT_STRICT), vec![DecodeError::UnsupportedVendorId(x16)], false)),
-                1 => Some((rec, None, vec![DecodeError::UnsupportedVendorId(x16)], true)),
-                _ => None,
+                _ => Some((rec, None, vec![DecodeError::UnsupportedVendorId(x16)], true)),
             }
         }
         "offset" => {
@@ -855,7 +856,7 @@ fn run_c20(ctx: &mut Ctx) {
         ("version", 16, 24, "fault-version"),
         ("unknown-attr", 65536, 2, "fault-unknown-attr"),
         ("message-type", 65536, 2, "fault-message-type"),
-        ("vendor", 65536, 2, "fault-vendor"),
+        ("vendor", 65536, 10, "fault-vendor"),
         ("offset", 65536, 4, "fault-offset"),
         ("error-type", 65536, 4, "fault-error-type"),
         ("truncated", 40, 52, "fault-truncated"),
